@@ -1116,14 +1116,18 @@ where
     {
         let self_ = RootedThread::new_root(self.borrow());
         let level = self_.context().stack.get_frames().len();
+        let len = self_.context().stack.len();
 
         self.call_thunk(closure).await.or_else(move |mut err| {
-            let mut context = self_.context();
-            let stack = StackFrame::<State>::current(&mut context.stack);
-            let new_trace = reset_stack(stack, level)?;
-            if let Error::Panic(_, ref mut trace) = err {
-                *trace = Some(new_trace);
+            {
+                let mut context = self_.context();
+                let stack = StackFrame::<State>::current(&mut context.stack);
+                let new_trace = reset_stack(stack, level)?;
+                if let Error::Panic(_, ref mut trace) = err {
+                    *trace = Some(new_trace);
+                }
             }
+            reset_stack_values(&self_, len);
             Err(err)
         })
     }
@@ -1137,13 +1141,17 @@ where
     {
         let self_ = RootedThread::new_root(self.borrow());
         let level = self_.context().stack.get_frames().len();
+        let len = self_.context().stack.len();
         self.execute_io(value).await.or_else(move |mut err| {
-            let mut context = self_.context();
-            let stack = StackFrame::<State>::current(&mut context.stack);
-            let new_trace = reset_stack(stack, level)?;
-            if let Error::Panic(_, ref mut trace) = err {
-                *trace = Some(new_trace);
+            {
+                let mut context = self_.context();
+                let stack = StackFrame::<State>::current(&mut context.stack);
+                let new_trace = reset_stack(stack, level)?;
+                if let Error::Panic(_, ref mut trace) = err {
+                    *trace = Some(new_trace);
+                }
             }
+            reset_stack_values(&self_, len);
             Err(err)
         })
     }
@@ -2951,10 +2959,13 @@ impl<'vm> ActiveThread<'vm> {
 pub fn reset_stack(mut stack: StackFrame<State>, level: usize) -> Result<crate::stack::Stacktrace> {
     let trace = stack.stack().stacktrace(level);
     while stack.stack().get_frames().len() > level {
+        let len = stack.len();
         stack = match stack.exit_scope() {
             Ok(s) => s,
             Err(_) => return Err(format!("Attempted to exit scope above current").into()),
         };
+        // The values of the frame are removed with it (a frame that returns removes them itself)
+        stack.pop_many(len);
     }
     Ok(trace)
 }
@@ -2970,6 +2981,17 @@ pub fn reset_stack_after_error(thread: &Thread, level: usize, mut err: Error) ->
         }
     }
     err
+}
+
+/// Removes the values that a failed call left above `len` in the frame that made the call (the
+/// function and the arguments that were pushed for it)
+#[doc(hidden)]
+pub fn reset_stack_values(thread: &Thread, len: VmIndex) {
+    let mut context = thread.context();
+    let current = context.stack.len();
+    if current > len {
+        StackFrame::<State>::current(&mut context.stack).pop_many(current - len);
+    }
 }
 
 struct ProgramCounter<'a> {
